@@ -37,7 +37,7 @@ def digest(obj) -> str:
     return hashlib.sha256(json.dumps(obj, sort_keys=True, default=repr, ensure_ascii=True).encode()).hexdigest()[:16]
 
 
-def child_env(extra=None, hashseed="0", with_site=False):
+def child_env(extra=None, hashseed=os.environ.get("J2M_VERIF_HASHSEED", "0"), with_site=False):
     env = dict(os.environ)
     paths = [REPO, VERIF, os.path.join(VERIF, "stubs")]
     if with_site:
@@ -46,7 +46,7 @@ def child_env(extra=None, hashseed="0", with_site=False):
     env["PYTHONDONTWRITEBYTECODE"] = "1"
     env["J2M_VERIF"] = "1"
     env["J2M_VERIF_REPO"] = REPO
-    if hashseed is not None:
+    if hashseed is not None and hashseed != "random":
         env["PYTHONHASHSEED"] = str(hashseed)
     else:
         env.pop("PYTHONHASHSEED", None)
@@ -66,7 +66,7 @@ def repo_state():
     return {"repo": REPO, "head": head, "dirty": dirty}
 
 
-def run_shards(check: str, cases: list, timeout_per_case: float = 20.0, jobs: int = None, hashseed="0",
+def run_shards(check: str, cases: list, timeout_per_case: float = 20.0, jobs: int = None, hashseed=os.environ.get("J2M_VERIF_HASHSEED", "0"),
                extra_env=None, shard_wall: float = None):
     """Run cases in parallel worker subprocesses. Returns (results, infra) where results is a list aligned
     with cases (missing -> inconclusive record)."""
